@@ -100,7 +100,7 @@ Notation init_sstate := (init_sstate T mode F inferral_strategies initial_strate
 Notation process := (process T mode F expand_verified).
 Notation qnext := (Queue.Model.next inferral_strategies initial_strategies expansion_strats).
 Notation q_apply := (q_apply inferral_strategies initial_strategies).
-Notation Inv := (Inv T False).
+Notation Inv := (Inv T False Gtriv).
 
 (* the searcher after __init__, and after any number of packets, satisfies the invariant *)
 Theorem C17_reachable : forall ans start n,
